@@ -17,9 +17,15 @@ def legacyCert : Cert → Bool
   | .sreg | .sdereg | .sdeleg | .pret | .preg _ _ => true
   | _ => false
 
-/-- Full statement: what the rule accepts is conserved per the ledger formula. -/
-def C27_full : Prop := ∀ t : Tx, (∀ i ∈ t.ins, i.resolvable = true) → rule t = .ok → specConserved t = true
-def C27_full_on (t : Tx) : Prop := (∀ i ∈ t.ins, i.resolvable = true) → rule t = .ok → specConserved t = true
+/-- accepted by the rules modelled here: the conservation rule and, in Conway and
+    Dijkstra, the certificate deposit rule, with every input resolvable
+    (BadInputs, see `badInputs_rejects_missing`) -/
+def accepted (t : Tx) : Bool :=
+  decide (rule t = .ok) && !certDepositsBad t && !badInputs t
+
+/-- Full statement: what is accepted is conserved per the ledger formula. -/
+def C27_full : Prop := ∀ t : Tx, accepted t = true → specConserved t = true
+def C27_full_on (t : Tx) : Prop := accepted t = true → specConserved t = true
 instance (t : Tx) : Decidable (C27_full_on t) := by unfold C27_full_on; infer_instance
 
 /-! ### helper lemmas -/
@@ -27,23 +33,47 @@ instance (t : Tx) : Decidable (C27_full_on t) := by unfold C27_full_on; infer_in
 theorem filter_resolvable (l : List In) (h : ∀ i ∈ l, i.resolvable = true) :
     l.filter (·.resolvable) = l := List.filter_eq_self.mpr h
 
-theorem dep_legacy (kd pd dd : Nat) (l : List Cert) (h : ∀ c ∈ l, legacyCert c = true) :
-    sumNat (l.map (depositLegacy kd pd)) =
-      sumNat (l.map (specDepositNoPool kd dd)) + pd * (newPoolIds l).length := by
+
+theorem countNew_gen (l : List Cert) : ∀ seen : List Nat,
+    countNew seen l = ((newPoolIds l).filter (fun a => !seen.contains a)).eraseDups.length := by
   induction l with
-  | nil => simp [sumNat, newPoolIds]
+  | nil => intro seen; simp [countNew, newPoolIds]
+  | cons c l ih =>
+    intro seen
+    cases c with
+    | preg n id =>
+      cases n with
+      | false => simpa [countNew, newPoolIds] using ih seen
+      | true =>
+        simp only [countNew, newPoolIds]
+        by_cases hs : seen.contains id = true
+        · simp only [hs, ↓reduceIte, List.filter_cons, Bool.not_true, Bool.false_eq_true]
+          exact ih seen
+        · have hs' : seen.contains id = false := by simpa using hs
+          simp only [hs', Bool.false_eq_true, ↓reduceIte, List.filter_cons, Bool.not_false,
+            List.eraseDups_cons, List.length_cons, List.filter_filter]
+          rw [ih (id :: seen), Nat.add_comm]
+          congr 3
+          apply List.filter_congr
+          intro a _
+          by_cases h1 : a = id <;> by_cases h2 : a ∈ seen <;> simp [h1, h2]
+    | _ => simpa [countNew, newPoolIds] using ih seen
+
+theorem countNew_eq (l : List Cert) : countNew [] l = (newPoolIds l).eraseDups.length := by
+  rw [countNew_gen l []]
+  have : (newPoolIds l).filter (fun a => !([] : List Nat).contains a) = newPoolIds l :=
+    List.filter_eq_self.mpr (fun a _ => by simp)
+  rw [this]
+
+theorem dep_legacy (kd dd : Nat) (l : List Cert) (h : ∀ c ∈ l, legacyCert c = true) :
+    sumNat (l.map (depositLegacy kd)) = sumNat (l.map (specDepositNoPool kd dd)) := by
+  induction l with
+  | nil => rfl
   | cons c l ih =>
     have ih' := ih (fun x hx => h x (List.mem_cons_of_mem _ hx))
     have hc := h c List.mem_cons_self
     simp only [sumNat, List.map_cons, List.sum_cons] at ih' ⊢
-    cases c with
-    | preg n id =>
-      cases n <;> simp [depositLegacy, specDepositNoPool, newPoolIds, Nat.mul_succ] <;> omega
-    | sreg => simp [depositLegacy, specDepositNoPool, newPoolIds]; omega
-    | sdereg => simp [depositLegacy, specDepositNoPool, newPoolIds]; omega
-    | sdeleg => simp [depositLegacy, specDepositNoPool, newPoolIds]; omega
-    | pret => simp [depositLegacy, specDepositNoPool, newPoolIds]; omega
-    | _ => simp [legacyCert] at hc
+    cases c <;> simp [depositLegacy, specDepositNoPool, legacyCert] at hc ⊢ <;> omega
 
 theorem ref_legacy (kd : Nat) (l : List Cert) (h : ∀ c ∈ l, legacyCert c = true) :
     sumNat (l.map (refundLegacy kd)) = sumNat (l.map (specRefund kd)) := by
@@ -55,29 +85,42 @@ theorem ref_legacy (kd : Nat) (l : List Cert) (h : ∀ c ∈ l, legacyCert c = t
     simp only [sumNat, List.map_cons, List.sum_cons] at ih' ⊢
     cases c <;> simp [refundLegacy, specRefund, legacyCert] at hc ⊢ <;> omega
 
-theorem dep_conway (kd pd dd : Nat) (l : List Cert) (h : ∀ c ∈ l, certAmountOff kd dd c = false) :
-    sumNat (l.map (depositConway kd pd)) =
-      sumNat (l.map (specDepositNoPool kd dd)) + pd * (newPoolIds l).length := by
-  induction l with
-  | nil => simp [sumNat, newPoolIds]
-  | cons c l ih =>
-    have ih' := ih (fun x hx => h x (List.mem_cons_of_mem _ hx))
-    have hc := h c List.mem_cons_self
-    simp only [sumNat, List.map_cons, List.sum_cons] at ih' ⊢
-    cases c with
-    | preg n id =>
-      cases n <;> simp [depositConway, specDepositNoPool, newPoolIds, Nat.mul_succ] <;> omega
-    | _ => simp [depositConway, specDepositNoPool, newPoolIds, certAmountOff] at hc ⊢ <;> omega
-
-theorem ref_conway (kd dd : Nat) (l : List Cert) (h : ∀ c ∈ l, certAmountOff kd dd c = false) :
-    sumNat (l.map (refundConway kd)) = sumNat (l.map (specRefund kd)) := by
+theorem dep_conway (kd dd : Nat) (l : List Cert) (h : ∀ c ∈ l, depositOff kd dd c = false) :
+    sumNat (l.map (depositConway kd)) = sumNat (l.map (specDepositNoPool kd dd)) := by
   induction l with
   | nil => rfl
   | cons c l ih =>
     have ih' := ih (fun x hx => h x (List.mem_cons_of_mem _ hx))
     have hc := h c List.mem_cons_self
     simp only [sumNat, List.map_cons, List.sum_cons] at ih' ⊢
-    cases c <;> simp [refundConway, specRefund, certAmountOff] at hc ⊢ <;> omega
+    cases c <;> simp [depositConway, specDepositNoPool, depositOff] at hc ⊢ <;> omega
+
+theorem ref_conway (kd dd : Nat) (l : List Cert) (h : ∀ c ∈ l, depositOff kd dd c = false)
+    (hu : ∀ c ∈ l, unregOff c = false) :
+    sumNat (l.map (refundConway kd)) = sumNat (l.map (specRefund kd)) := by
+  induction l with
+  | nil => rfl
+  | cons c l ih =>
+    have ih' := ih (fun x hx => h x (List.mem_cons_of_mem _ hx)) (fun x hx => hu x (List.mem_cons_of_mem _ hx))
+    have hc := h c List.mem_cons_self
+    have hc2 := hu c List.mem_cons_self
+    simp only [sumNat, List.map_cons, List.sum_cons] at ih' ⊢
+    cases c <;> simp [refundConway, specRefund, depositOff, unregOff] at hc hc2 ⊢ <;> omega
+
+/-- per asset, the code's consumed quantity is the formula's when every input resolves
+    and the mint field has no entry under the all-zero policy id -/
+theorem tok_eq (t : Tx) (hres : ∀ i ∈ t.ins, i.resolvable = true) (hz : zmint t = 0) (id : Nat) :
+    consumedTok t id = specConsumedTok t id := by
+  unfold consumedTok specConsumedTok insTok
+  rw [filter_resolvable t.ins hres]
+  by_cases h0 : id = 0
+  · subst h0; unfold zmint at hz; simp [hz]
+  · simp [h0]
+
+theorem tokOk_eq (t : Tx) (hres : ∀ i ∈ t.ins, i.resolvable = true) (hz : zmint t = 0) :
+    tokOk t = (ids t).all (fun id => decide (specConsumedTok t id = (outsTok t id : Int))) := by
+  unfold tokOk
+  exact List.all_congr rfl (fun id => by rw [tok_eq t hres hz id])
 
 /-- the rule's verdict in propositional form -/
 theorem rule_ok_iff (t : Tx) :
@@ -96,99 +139,106 @@ theorem rule_ok_iff (t : Tx) :
 theorem spec_iff (t : Tx) :
     specConserved t = true ↔
       specConsumedCoin t = specProducedCoin t ∧
-      (sumNat (t.ins.map (·.tok)) : Int) + t.mint = outsTok t ∧ t.zmint = 0 := by
+      (ids t).all (fun id => decide (specConsumedTok t id = (outsTok t id : Int))) = true := by
   unfold specConserved
-  simp only [Bool.and_eq_true, decide_eq_true_eq, and_assoc]
+  simp only [Bool.and_eq_true, decide_eq_true_eq]
 
 /-! ### the property theorems -/
 
-/-- Shelley and Allegra (coin only): with every input resolvable and no pool registered
-    twice in the transaction, the rule passes iff consumed = produced per the formula. -/
+/-- Shelley and Allegra (coin only; these eras have no assets): with every input
+    resolvable the rule passes iff consumed = produced per the formula. -/
 theorem conserved_iff_shelley (t : Tx) (he : t.era ≤ 2)
     (hres : ∀ i ∈ t.ins, i.resolvable = true)
     (hleg : ∀ c ∈ t.certs, legacyCert c = true)
-    (hdup : clsDupPool t = false)
-    (hnotok : sumNat (t.ins.map (·.tok)) = 0 ∧ outsTok t = 0 ∧ t.mint = 0 ∧ t.zmint = 0)
+    (hnotok : ids t = [])
     (hnc : sumNat t.props = 0 ∧ t.don = 0) :
     rule t = .ok ↔ specConserved t = true := by
   have h6 : isConway t = false := by simp [isConway]; omega
   have h3 : hasAssets t = false := by simp [hasAssets]; omega
-  have hd : (newPoolIds t.certs).eraseDups.length = (newPoolIds t.certs).length := by
-    simpa [clsDupPool] using hdup
-  obtain ⟨ht1, ht2, ht3, ht4⟩ := hnotok
   obtain ⟨hp, hdn⟩ := hnc
   rw [rule_ok_iff, spec_iff]
   unfold consumedCoin producedCoin specConsumedCoin specProducedCoin insCoin
-  rw [filter_resolvable t.ins hres, dep_legacy t.kd t.pd t.dd t.certs hleg, ref_legacy t.kd t.certs hleg, hd]
+  rw [filter_resolvable t.ins hres, dep_legacy t.kd t.dd t.certs hleg, ref_legacy t.kd t.certs hleg,
+    countNew_eq, hnotok]
   simp only [h6, h3, Bool.false_and, Bool.false_eq_true, ↓reduceIte, false_implies, and_true, true_and,
-    ht1, ht2, ht3, ht4, hp, hdn]
+    hp, hdn, List.all_nil]
   constructor <;> intro h <;> omega
 
-/-- Mary, Alonzo, Babbage: coin and the token separately. -/
+/-- Mary, Alonzo, Babbage: coin and every asset separately. -/
 theorem conserved_iff_mary (t : Tx) (he : 3 ≤ t.era ∧ t.era ≤ 5)
     (hres : ∀ i ∈ t.ins, i.resolvable = true)
     (hleg : ∀ c ∈ t.certs, legacyCert c = true)
-    (hdup : clsDupPool t = false) (hz : t.zmint = 0)
+    (hz : zmint t = 0)
     (hnc : sumNat t.props = 0 ∧ t.don = 0) :
     rule t = .ok ↔ specConserved t = true := by
   have h6 : isConway t = false := by simp [isConway]; omega
   have h3 : hasAssets t = true := by simp [hasAssets]; omega
-  have hd : (newPoolIds t.certs).eraseDups.length = (newPoolIds t.certs).length := by
-    simpa [clsDupPool] using hdup
   obtain ⟨hp, hdn⟩ := hnc
-  rw [rule_ok_iff, spec_iff]
-  unfold consumedCoin producedCoin specConsumedCoin specProducedCoin insCoin tokOk insTok
-  rw [filter_resolvable t.ins hres, dep_legacy t.kd t.pd t.dd t.certs hleg, ref_legacy t.kd t.certs hleg, hd]
-  simp only [h6, h3, Bool.false_and, Bool.false_eq_true, ↓reduceIte, true_and, hz, hp, hdn,
-    decide_eq_true_eq, forall_const]
+  rw [rule_ok_iff, spec_iff, tokOk_eq t hres hz]
+  unfold consumedCoin producedCoin specConsumedCoin specProducedCoin insCoin
+  rw [filter_resolvable t.ins hres, dep_legacy t.kd t.dd t.certs hleg, ref_legacy t.kd t.certs hleg,
+    countNew_eq]
+  simp only [h6, h3, Bool.false_and, Bool.false_eq_true, ↓reduceIte, true_and, hp, hdn, forall_const]
   constructor
-  · rintro ⟨h1, h2⟩; exact ⟨by omega, h2, trivial⟩
-  · rintro ⟨h1, h2, _⟩; exact ⟨by omega, h2⟩
+  · rintro ⟨h1, h2⟩; exact ⟨by omega, h2⟩
+  · rintro ⟨h1, h2⟩; exact ⟨by omega, h2⟩
 
-/-- Conway and Dijkstra: under the hypotheses that the amounts written in the
-    certificates are the deposits the ledger formula uses (registration: the protocol
-    parameter; deregistration: the recorded deposit) and are non-zero, that no pool is
-    registered twice and that the mint field has no entry under the all-zero policy id. -/
+/-- Conway and Dijkstra: when the certificate deposit rule passes, the stake
+    deregistration refunds are the recorded deposits (the one thing no listed rule can
+    check), no certificate amount is zero and the mint field has no entry under the
+    all-zero policy id, the rule passes iff consumed = produced per the formula. -/
 theorem conserved_iff_conway (t : Tx) (he : 6 ≤ t.era)
     (hres : ∀ i ∈ t.ins, i.resolvable = true)
-    (hamt : ∀ c ∈ t.certs, certAmountOff t.kd t.dd c = false)
+    (hdep : certDepositsBad t = false)
+    (hun : clsCertAmount t = false)
     (hzero : t.certs.any zeroAmount = false)
-    (hdup : clsDupPool t = false) (hz : t.zmint = 0) :
+    (hz : zmint t = 0) :
     rule t = .ok ↔ specConserved t = true := by
   have h6 : isConway t = true := by simp [isConway]; omega
   have h3 : hasAssets t = true := by simp [hasAssets]; omega
-  have hd : (newPoolIds t.certs).eraseDups.length = (newPoolIds t.certs).length := by
-    simpa [clsDupPool] using hdup
-  rw [rule_ok_iff, spec_iff]
-  unfold consumedCoin producedCoin specConsumedCoin specProducedCoin insCoin tokOk insTok
-  rw [filter_resolvable t.ins hres, dep_conway t.kd t.pd t.dd t.certs hamt, ref_conway t.kd t.dd t.certs hamt, hd]
-  simp only [h6, h3, hzero, Bool.and_false, ↓reduceIte, true_and, hz, decide_eq_true_eq, forall_const]
+  have hamt : ∀ c ∈ t.certs, depositOff t.kd t.dd c = false := by
+    intro c hc
+    have : t.certs.any (depositOff t.kd t.dd) = false := by simpa [certDepositsBad, h6] using hdep
+    simpa using List.any_eq_false.mp this c hc
+  have hu : ∀ c ∈ t.certs, unregOff c = false := by
+    intro c hc
+    simpa using List.any_eq_false.mp hun c hc
+  rw [rule_ok_iff, spec_iff, tokOk_eq t hres hz]
+  unfold consumedCoin producedCoin specConsumedCoin specProducedCoin insCoin
+  rw [filter_resolvable t.ins hres, dep_conway t.kd t.dd t.certs hamt, ref_conway t.kd t.dd t.certs hamt hu,
+    countNew_eq]
+  simp only [h6, h3, hzero, Bool.and_false, ↓reduceIte, true_and, hz, forall_const]
   constructor
-  · rintro ⟨h1, h2⟩; exact ⟨by omega, h2, trivial⟩
-  · rintro ⟨h1, h2, _⟩; exact ⟨by omega, h2⟩
+  · rintro ⟨h1, h2⟩; exact ⟨by omega, h2⟩
+  · rintro ⟨h1, h2⟩; exact ⟨by omega, h2⟩
 
-/-- The part of the full statement that holds in every era: outside the three recorded
-    input classes an accepted balance is conserved per the ledger formula. -/
+/-- The part of the full statement that holds in every era: outside the two recorded
+    input classes, whatever is accepted is conserved per the ledger formula. -/
 theorem C27_partial (t : Tx) (he : 1 ≤ t.era)
     (hleg : t.era ≤ 5 → (∀ c ∈ t.certs, legacyCert c = true) ∧ sumNat t.props = 0 ∧ t.don = 0)
-    (hnotok : t.era ≤ 2 → sumNat (t.ins.map (·.tok)) = 0 ∧ outsTok t = 0 ∧ t.mint = 0)
-    (hzero : t.certs.any zeroAmount = false)
-    (h1 : clsCertAmount t = false) (h2 : clsDupPool t = false) (h3 : clsZeroPolicyMint t = false) :
+    (hnotok : t.era ≤ 2 → ids t = [])
+    (h1 : clsCertAmount t = false) (h3 : clsZeroPolicyMint t = false) :
     C27_full_on t := by
-  intro hres hok
-  have hz : t.zmint = 0 := by simpa [clsZeroPolicyMint] using h3
-  have hamt : ∀ c ∈ t.certs, certAmountOff t.kd t.dd c = false := by
-    intro c hc
-    have := List.any_eq_false.mp h1 c hc
+  intro hacc
+  unfold accepted at hacc
+  simp only [Bool.and_eq_true, decide_eq_true_eq, Bool.not_eq_true'] at hacc
+  obtain ⟨⟨hok, hdep⟩, hbad⟩ := hacc
+  have hres : ∀ i ∈ t.ins, i.resolvable = true := by
+    intro i hi
+    have := List.any_eq_false.mp hbad i hi
     simpa using this
+  have hz : zmint t = 0 := by simpa [clsZeroPolicyMint] using h3
   by_cases e2 : t.era ≤ 2
-  · obtain ⟨a, b, c⟩ := hnotok e2
-    obtain ⟨l, p, d⟩ := hleg (by omega)
-    exact (conserved_iff_shelley t e2 hres l h2 ⟨a, b, c, hz⟩ ⟨p, d⟩).1 hok
+  · obtain ⟨l, p, d⟩ := hleg (by omega)
+    exact (conserved_iff_shelley t e2 hres l (hnotok e2) ⟨p, d⟩).1 hok
   · by_cases e5 : t.era ≤ 5
     · obtain ⟨l, p, d⟩ := hleg e5
-      exact (conserved_iff_mary t ⟨by omega, e5⟩ hres l h2 hz ⟨p, d⟩).1 hok
-    · exact (conserved_iff_conway t (by omega) hres hamt hzero h2 hz).1 hok
+      exact (conserved_iff_mary t ⟨by omega, e5⟩ hres l hz ⟨p, d⟩).1 hok
+    · have h6 : isConway t = true := by simp [isConway]; omega
+      have hzero : t.certs.any zeroAmount = false := by
+        have := ((rule_ok_iff t).1 hok).1
+        simpa [h6] using this
+      exact (conserved_iff_conway t (by omega) hres hdep h1 hzero hz).1 hok
 
 /-- Unresolvable inputs are skipped by the conservation rule; the listed BadInputs rule
     rejects every transaction that has one. -/
@@ -196,6 +246,14 @@ theorem badInputs_rejects_missing (t : Tx) (h : ∃ i ∈ t.ins, i.resolvable = 
     badInputs t = true := by
   obtain ⟨i, hi, hr⟩ := h
   exact List.any_eq_true.mpr ⟨i, hi, by simp [hr]⟩
+
+/-- The conservation rule does not read the phase-2 fields: a phase-2-invalid
+    transaction (collateral consumed instead of the inputs) must balance exactly like a
+    valid one, as in the ledger's UTXO rule, where the check precedes the validity branch. -/
+theorem phase2_fields_irrelevant (t : Tx) (v : Bool) (c : List In) (r : Option Out) (tc : Option Nat) :
+    rule { t with valid := v, coll := c, collRet := r, totalColl := tc } = rule t ∧
+    specConserved { t with valid := v, coll := c, collRet := r, totalColl := tc } = specConserved t :=
+  ⟨rfl, rfl⟩
 
 /-! ### witnesses of the recorded findings (the code departs from the formula) -/
 
@@ -205,11 +263,10 @@ def wCertAmount : Tx where
   pd := 500000000
   dd := 500000000
   fee := 0
-  mint := 0
-  zmint := 0
+  mint := []
   don := 0
-  ins := [⟨true, 1000000, 0⟩]
-  outs := [⟨1001000000, 0⟩]
+  ins := [⟨true, 1000000, []⟩]
+  outs := [⟨1001000000, []⟩]
   wds := []
   certs := [.unreg 1000000000 2000000]
   props := []
@@ -220,11 +277,10 @@ def wAdaMint : Tx where
   pd := 500000000
   dd := 500000000
   fee := 0
-  mint := 0
-  zmint := 7000000
+  mint := [(0, 7000000)]
   don := 0
   ins := []
-  outs := [⟨7000000, 0⟩]
+  outs := [⟨7000000, []⟩]
   wds := []
   certs := []
   props := []
@@ -235,28 +291,42 @@ def wZeroPolicySkip : Tx where
   pd := 500000000
   dd := 0
   fee := 0
-  mint := 0
-  zmint := 5
+  mint := [(0, 5)]
   don := 0
-  ins := [⟨true, 10, 0⟩]
-  outs := [⟨10, 0⟩]
+  ins := [⟨true, 10, []⟩]
+  outs := [⟨10, []⟩]
   wds := []
   certs := []
   props := []
 
+/-- repaired by `fix:` commits: a pool registered twice pays once; a registration naming
+    1 lovelace is rejected by the deposit rule -/
 def wDupPool : Tx where
   era := 1
   kd := 2000000
   pd := 500000000
   dd := 0
   fee := 0
-  mint := 0
-  zmint := 0
+  mint := []
   don := 0
-  ins := [⟨true, 1000000000, 0⟩]
+  ins := [⟨true, 1000000000, []⟩]
   outs := []
   wds := []
   certs := [.preg true 10, .preg true 10]
+  props := []
+
+def wRegOne : Tx where
+  era := 7
+  kd := 2000000
+  pd := 500000000
+  dd := 500000000
+  fee := 0
+  mint := []
+  don := 0
+  ins := [⟨true, 1000000, []⟩]
+  outs := [⟨999999, []⟩]
+  wds := []
+  certs := [.reg 1]
   props := []
 
 def exShelley : Tx where
@@ -265,13 +335,12 @@ def exShelley : Tx where
   pd := 5
   dd := 0
   fee := 1
-  mint := 0
-  zmint := 0
+  mint := []
   don := 0
-  ins := [⟨true, 10, 0⟩]
-  outs := [⟨2, 0⟩]
+  ins := [⟨true, 10, []⟩]
+  outs := [⟨2, []⟩]
   wds := []
-  certs := [.sreg, .preg true 3]
+  certs := [.sreg, .preg true 3, .preg true 3]
   props := []
 
 def exConway : Tx where
@@ -280,17 +349,19 @@ def exConway : Tx where
   pd := 5
   dd := 3
   fee := 1
-  mint := 4
-  zmint := 0
+  mint := [(1, 4), (2, -1)]
   don := 1
-  ins := [⟨true, 20, 1⟩]
-  outs := [⟨7, 5⟩]
+  ins := [⟨true, 20, [(1, 1), (2, 3)]⟩]
+  outs := [⟨10, [(1, 5)]⟩, ⟨0, [(2, 2)]⟩]
   wds := [2]
-  certs := [.reg 2, .dreg 3, .unreg 2 2]
+  certs := [.reg 2, .dreg 3, .unreg 2 2, .dunreg 3 3]
   props := [10]
+  valid := false
+  coll := [⟨true, 5, []⟩]
 
-/-- class `cert-amount`: a Conway deregistration certificate that names an arbitrary
-    refund balances a transaction that pays out 1 000 000 000 more than it spends. -/
+/-- class `cert-amount`: a Conway stake deregistration certificate that names an
+    arbitrary refund balances a transaction that pays out 10^9 more than it spends, and
+    no listed rule can compare the refund with the recorded deposit. -/
 theorem C27_witness_cert_amount : ¬ C27_full_on wCertAmount := by decide
 
 /-- class `zero-policy-mint`: Conway adds a mint entry under the all-zero policy id with
@@ -301,13 +372,13 @@ theorem C27_witness_ada_mint : ¬ C27_full_on wAdaMint := by decide
     without any output holding it passes. -/
 theorem C27_witness_zero_policy_skip : ¬ C27_full_on wZeroPolicySkip := by decide
 
-/-- class `dup-pool-reg`: two registration certificates of the same new pool are charged
-    two deposits (the formula counts a new pool once). -/
-theorem C27_witness_dup_pool : ¬ C27_full_on wDupPool := by decide
+/-- the two repaired defects are rejected now -/
+theorem repaired_witnesses : accepted wDupPool = false ∧ accepted wRegOne = false := by decide
 
 theorem C27_full_fails : ¬ C27_full := fun h => C27_witness_cert_amount (h wCertAmount)
 
-/-- (R) the rule is listed in every era, and Allegra / Dijkstra forward to Shelley / Conway. -/
+/-- (R) the rules are listed in every era they belong to, and Allegra / Dijkstra forward
+    to Shelley / Conway. -/
 theorem rules_listed :
     (∀ l ∈ [GV.Gen.RuleLists.shelley, GV.Gen.RuleLists.allegra, GV.Gen.RuleLists.mary,
             GV.Gen.RuleLists.alonzo, GV.Gen.RuleLists.babbage, GV.Gen.RuleLists.conway,
@@ -316,11 +387,80 @@ theorem rules_listed :
     (∀ l ∈ [GV.Gen.RuleLists.shelley, GV.Gen.RuleLists.allegra, GV.Gen.RuleLists.mary,
             GV.Gen.RuleLists.alonzo, GV.Gen.RuleLists.babbage, GV.Gen.RuleLists.conway],
       "UtxoValidateBadInputsUtxo" ∈ l) ∧
-    "conway.UtxoValidateBadInputsUtxo" ∈ GV.Gen.RuleLists.dijkstra := by
+    "conway.UtxoValidateBadInputsUtxo" ∈ GV.Gen.RuleLists.dijkstra ∧
+    "UtxoValidateCertificateDeposits" ∈ GV.Gen.RuleLists.conway ∧
+    "conway.UtxoValidateCertificateDeposits" ∈ GV.Gen.RuleLists.dijkstra ∧
+    GV.Gen.G1Rules.valueConservationDelegation =
+      [("allegra", "shelley.UtxoValidateValueNotConservedUtxo"),
+       ("dijkstra", "conway.UtxoValidateValueNotConservedUtxo")] := by
   decide
 
-/-- Non-vacuity: accepted transactions with certificates, tokens, proposals exist. -/
-example : rule exShelley = .ok := by decide
-example : rule exConway = .ok ∧ specConserved exConway = true := by decide
+/-! ### (R) the certificate cases of the Go rule bodies, regenerated on every run -/
+
+/-- every certificate constructor of the model under the name of its Go type, built with
+    the probe amount 5 (recorded deposit 7) -/
+def namedCerts : List (String × Cert) :=
+  [("StakeRegistrationCertificate", .sreg), ("StakeDeregistrationCertificate", .sdereg),
+   ("StakeDelegationCertificate", .sdeleg), ("PoolRetirementCertificate", .pret),
+   ("VoteDelegationCertificate", .vdeleg), ("PoolRegistrationCertificate", .preg true 1),
+   ("RegistrationCertificate", .reg 5), ("DeregistrationCertificate", .unreg 5 7),
+   ("StakeRegistrationDelegationCertificate", .srd 5), ("VoteRegistrationDelegationCertificate", .vrd 5),
+   ("StakeVoteRegistrationDelegationCertificate", .svrd 5), ("RegistrationDrepCertificate", .dreg 5),
+   ("DeregistrationDrepCertificate", .dunreg 5 7)]
+
+/-- which quantity a probed value is: KeyDeposit is probed with 2, PoolDeposit with 3, the
+    certificate's own amount with 5 -/
+def srcName (v : Nat) : Option String :=
+  if v = 2 then some "KeyDeposit" else if v = 3 then some "PoolDeposit"
+  else if v = 5 then some "Amount" else none
+
+/-- the table the model's refund / deposit functions induce -/
+def modelCases (conway : Bool) : List (String × String × String) :=
+  (namedCerts.filterMap fun (n, c) =>
+    (srcName (if conway then refundConway 2 c else refundLegacy 2 c)).map fun s => ("consumed", n, s)) ++
+  (namedCerts.filterMap fun (n, c) =>
+    (srcName ((if conway then depositConway 2 c else depositLegacy 2 c) + 3 * countNew [] [c])).map
+      fun s => ("produced", n, s))
+
+/-- The certificate types each Go rule body adds to the consumed / produced side, and
+    where it takes the amount from (KeyDeposit, PoolDeposit, the certificate's Amount),
+    are exactly the model's — in all five rule bodies, as they stand in the source now. -/
+theorem cert_cases_match :
+    (∀ l ∈ [GV.Gen.G1Rules.vcCases_shelley, GV.Gen.G1Rules.vcCases_mary, GV.Gen.G1Rules.vcCases_alonzo,
+            GV.Gen.G1Rules.vcCases_babbage],
+      (∀ x ∈ l, x ∈ modelCases false) ∧ (∀ x ∈ modelCases false, x ∈ l)) ∧
+    (∀ x ∈ GV.Gen.G1Rules.vcCases_conway, x ∈ modelCases true) ∧
+    (∀ x ∈ modelCases true, x ∈ GV.Gen.G1Rules.vcCases_conway) := by
+  decide
+
+/-- certificate builders by Go type name: amount `a`, recorded deposit 7 -/
+def namedBuilders : List (String × (Nat → Cert)) :=
+  [("StakeRegistrationCertificate", fun _ => .sreg), ("StakeDeregistrationCertificate", fun _ => .sdereg),
+   ("PoolRegistrationCertificate", fun _ => .preg true 1),
+   ("RegistrationCertificate", .reg), ("DeregistrationCertificate", fun a => .unreg a 7),
+   ("StakeRegistrationDelegationCertificate", .srd), ("VoteRegistrationDelegationCertificate", .vrd),
+   ("StakeVoteRegistrationDelegationCertificate", .svrd), ("RegistrationDrepCertificate", .dreg),
+   ("DeregistrationDrepCertificate", fun a => .dunreg a 7)]
+
+/-- what the model's `depositOff` compares a certificate's amount with, found by probing
+    (KeyDeposit 2, DRepDeposit 3, recorded deposit 7) -/
+def modelDepositCases : List (String × String) :=
+  namedBuilders.filterMap fun (n, mk) =>
+    if !depositOff 2 3 (mk 2) && depositOff 2 3 (mk 3) && depositOff 2 3 (mk 7) then some (n, "KeyDeposit")
+    else if !depositOff 2 3 (mk 3) && depositOff 2 3 (mk 2) && depositOff 2 3 (mk 7) then some (n, "DRepDeposit")
+    else if !depositOff 2 3 (mk 7) && depositOff 2 3 (mk 2) && depositOff 2 3 (mk 3) then some (n, "Recorded")
+    else none
+
+/-- (R) the certificate deposit rule in the source compares exactly the certificate types
+    the model says, each with the quantity the model says. -/
+theorem deposit_rule_cases_match :
+    (∀ x ∈ GV.Gen.G1Rules.depositRuleCases, x ∈ modelDepositCases) ∧
+    (∀ x ∈ modelDepositCases, x ∈ GV.Gen.G1Rules.depositRuleCases) := by
+  decide
+
+/-- Non-vacuity: accepted transactions with certificates, several assets, proposals,
+    a duplicate pool registration and phase-2 fields exist. -/
+example : accepted exShelley = true ∧ specConserved exShelley = true := by decide
+example : accepted exConway = true ∧ specConserved exConway = true := by decide
 
 end GV.Props.C27
